@@ -44,6 +44,7 @@ type Stmt struct {
 	Name          string
 	ParamOIDs     []uint32 // parameter types declared in Parse
 	Args          []interface{} // MySQL: arguments of a prepared statement (int64, string, []byte, nil)
+	NoParse       bool          // PostgreSQL: execute the statement prepared earlier under Name (no Parse message)
 	Tag           string   // harness bookkeeping
 }
 
@@ -513,7 +514,9 @@ func runPgClient(conn net.Conn, script []Stmt, results []StmtResult) error {
 	for i, st := range script {
 		res := &results[i]
 		if st.Extended {
-			fe.Send(&pgproto3.Parse{Name: st.Name, Query: st.SQL, ParameterOIDs: st.ParamOIDs})
+			if !st.NoParse {
+				fe.Send(&pgproto3.Parse{Name: st.Name, Query: st.SQL, ParameterOIDs: st.ParamOIDs})
+			}
 			if st.Describe {
 				fe.Send(&pgproto3.Describe{ObjectType: 'S', Name: st.Name})
 			}
